@@ -582,6 +582,20 @@ public:
 		, mSize(arraySize)
 	{ }
 
+	~CMsgPackReadArrayScope()
+	{
+		// Skip items that was not read (otherwise they will be treated as part of the parent scope)
+		try
+		{
+			for (; mIndex < mSize; ++mIndex) {
+				mMsgPackReader->SkipValue();
+			}
+		}
+		catch (...) {
+			// Broken input, the error will be reported when reading the next value
+		}
+	}
+
 	/// <summary>
 	/// Gets the current path in MsgPack.
 	/// </summary>
